@@ -1,6 +1,6 @@
 """C11 Legalization does not move an already legal single-row placement."""
 import tracecheck
-from checks.common import run_plan, first, all_of, moved
+from checks.common import run_plan, first, all_of, moved, small_scope
 
 LEVEL = "model_checking"
 
@@ -32,6 +32,8 @@ def run(chk):
         dict(flavour="asan-ubsan", scen="legc", runs=(1000, 25000), opts={"cb": 0, "singleRowOnly": 1, "turned": 0, "wideOrdering": 0, "varyScale": 8,
                                                                           "utilLo": 0.5, "utilHi": 1.6, "maxMovable": 14}),
     ]
+    if not chk.quick:
+        small_scope(chk, "C11", lambda ch, runs: [ch.count() for _ in runs])
     run_plan(chk, "C11", plan, nontrivial)
     chk.cov["rule"] = ("legalize; legalize on random circuits whose movable cells are all one row high (obstructions, split rows, polarities, "
                        "|v| < 2^20, random accepted parameter sets); TLC checks that the second call (whose input it has checked to be Legal) "
